@@ -55,6 +55,12 @@ POOL = {
     "user": ["alice", "bob_2", "carol", "d smith", "x=y", "a:b;c", "#hash"],
     "clientuid": ["11111111-2222-4333-8444-555555555555", "AAAAAAAA-BBBB-4CCC-8DDD-EEEEEEEEEEEE"],
 }
+INI_SPECIAL = {
+    "user": ["smith ;joint", ";lead", "a #b", "q= z", "[u]", "50%", "%(x)s", "k: v"],
+    "org": ["ACME ;Trust", "A #1", "[ORG]", "100%"],
+    "useragent": ["UA/1.0 ;Quicken", "UA #2", "x = y", "[UA]"],
+    "fid": ["7 ;a", "F#9", "9 #9"],
+}
 BOOLS = ["pretty", "unclosedelements", "nonewfileuid", "skipprofile"]
 LISTS = ["checking", "savings", "moneymrkt", "creditline", "creditcard", "investment"]
 SRVR = ["url", "ofxhome", "version", "pretty", "unclosedelements", "org", "fid", "brokerid", "bankid", "appid",
@@ -218,6 +224,10 @@ class OfxgetWorld:
                     aid = aid[:k] + " " + aid[k + 1:]
                 out.append(aid)
             return out
+        if opt in INI_SPECIAL and ch.flag(label + ".ini_special", 0.12):
+            # characters that mean something to INI readers: ';' or '#' after a blank or in front, '=', ':', '[', '%'
+            vals = INI_SPECIAL[opt]
+            return vals[ch.pick(label + ".ini_special.v", len(vals))]
         pool = POOL[opt]
         if opt == "clientuid" and label == "cli" and self.default_clientuid and ch.flag("cli.clientuid.is_default", 0.35):
             return self.default_clientuid          # exactly the generated default, given explicitly
